@@ -172,6 +172,13 @@ def run(ctx):
                 ctx.disagree("flac-save-enospc", case, model=line[:160], impl="%s data=%s" % (impl, dat[:120]))
 
 
+    # the container models as programs over the file object (Model/Container/<X>M.lean, Props/C19_<X>.lean, Props/C06_<X>.lean):
+    # the real code on fobj.FaultFile vs the model under the same capacity / fault schedule - outcome class, bytes left, call log
+    import importlib
+    for name in ("asf_tie", "iff_tie", "dsf_tie", "ogginject_tie"):
+        importlib.import_module(name).run_faults(ctx)
+    importlib.import_module("mp4file_tie").run_faults(ctx, want=("cap",))
+
 def search(ctx):
     old = ctx.tier; ctx.tier = "thorough"
     try:
